@@ -1,6 +1,23 @@
 import Qsx.Model.Wire
 import Qsx.Model.Driver
+import Qsx.Model.Num
 open Qsx
+
+def hexVal (c : Char) : Option Nat :=
+  if '0' ≤ c && c ≤ '9' then some (c.toNat - '0'.toNat)
+  else if 'a' ≤ c && c ≤ 'f' then some (c.toNat - 'a'.toNat + 10) else none
+
+/-- hex string ↦ the characters (bytes) it encodes; `-` is the empty string -/
+def unhex (s : String) : Option (List Char) :=
+  if s == "-" then some [] else
+  let rec go : List Char → Option (List Char)
+    | [] => some []
+    | [_] => none
+    | a :: b :: r => do
+      let x ← hexVal a; let y ← hexVal b
+      let t ← go r
+      pure (Char.ofNat (16 * x + y) :: t)
+  go s.toList
 
 def pBool : P Bool := do let n ← pNat; pure (n != 0)
 
@@ -60,6 +77,14 @@ def answer (cx : Ctx) (toks : List String) : Ctx × List String :=
       else pure ["rval 0", s!"status {o.status}", fmtOpt cx "xout" o.xOut, fmtOpt cx "yout" o.yOut, bs,
                  s!"stages {o.stagesUsed}"]).run' rest
     (cx, r.getD ["bad-op"])
+  | ["scan", hex] =>
+    match unhex hex with
+    | none => (cx, ["bad-op"])
+    | some cs =>
+      let (n, v) := Qsx.Num.scan cs
+      match v with
+      | .none => (cx, [s!"n {n}", "val none"])
+      | .ok q => (cx, [s!"n {n}", s!"val {fmtRat cx q}"])
   | "tointernal" :: rest =>
     let r : Option (List String) := (do
       let L ← pLP cx
